@@ -108,6 +108,10 @@ static inline size_t wb_idx(size_t i, size_t n) { WB_ASSERT(i < n, "vector index
   { WB_ASSERT(v->n < WB_CAP_##NAME, "MODEL-BOUND vector capacity"); v->data[v->n] = x; v->n = v->n + 1; } \
   static inline struct NAME NAME##_new_empty(void)                                                      \
   { struct NAME v; v.n = 0; return v; }                                                                 \
+  static inline void NAME##_resize(struct NAME *v, size_t cnt, T val)                                    \
+  { WB_ASSERT(v->n == 0, "MODEL-BOUND resize() is modelled for an empty vector only");                   \
+    WB_ASSERT(cnt <= WB_CAP_##NAME, "MODEL-BOUND vector capacity");                                      \
+    WB_ARRAY_SET(v->data, WB_CAP_##NAME, val); v->n = cnt; }                                             \
   static inline struct NAME NAME##_new_fill(size_t cnt, T val)                                           \
   { struct NAME v; WB_ASSERT(cnt <= WB_CAP_##NAME, "MODEL-BOUND vector capacity");                       \
     WB_ARRAY_SET(v.data, WB_CAP_##NAME, val); v.n = cnt; return v; }
